@@ -112,7 +112,14 @@ class Impl:
         if name in ('neg', 'clone', 'exp', 'log', 'sqrt'): return getattr(sg, name)(x[0])
         if name in ('pow', 'rpow'): return getattr(sg, name)(x[0], bitsf(args[0]))
         if name == 'slice': return sg.slice(x[0], self._index(parse_sel(args[0])))
-        if name in ('concat', 'stack'): return getattr(sg, name)(x, int(args[0]))
+        if name in ('concat', 'stack'):
+            # the sequence is the caller's object: hand over a list or a tuple, and (for a list) mutate it once the call has
+            # returned — the graph must have its own record of the operands
+            seq = list(x) if int(args[0]) % 2 == 0 else tuple(x)
+            r = getattr(sg, name)(seq, int(args[0]))
+            if isinstance(seq, list):
+                seq.reverse(); seq.pop()
+            return r
         if name == 'unbind': return sg.unbind(x[0], int(args[0]))
         if name in ('sum', 'mean'): return getattr(sg, name)(x[0], parse_axes(args[0]), bool(int(args[1])))
         if name in ('max', 'min'): return getattr(sg, name)(x[0], opt_int(args[0]), bool(int(args[1])))
@@ -148,6 +155,8 @@ class Impl:
             b = (x[2] if hw else x[1]) if hb else None
             rm = None if args[4] == '-' else sg.Tensor(np.array(common.parse_floats(args[4]), dtype=x[0].data.dtype))
             rv = None if args[5] == '-' else sg.Tensor(np.array(common.parse_floats(args[5]), dtype=x[0].data.dtype))
+            if not tr:      # in eval mode the running statistics are plain operands: nothing may write to them (observed by C11)
+                self.readonly_aux = getattr(self, 'readonly_aux', []) + [t_ for t_ in (rm, rv) if t_ is not None]
             return sg.batch_norm(x[0], w, b, rm, rv, tr, 0.1, bitsf(args[3]))
         raise KeyError(name)
 
